@@ -623,6 +623,10 @@ class Body:
                     continue
                 if d[0] == 'call' and canon(d[1]).endswith("FromResidual::from_residual"):
                     continue        # builds a failure: never the selected (success) variant
+                if d[0] == 'call':
+                    # a definition by a fallible call: if it is the selected variant, the value is that call's payload
+                    out.append((pos, ('ok', d) if k == 'ok' else ('vfield', d, t[2], t[3])))
+                    continue
                 return None
             return out
         return None
@@ -1077,6 +1081,29 @@ def _body_facts(self):
     return facts
 
 
+def rels_of_bool(term, truth):
+    """the relations stated by `term == truth` for a boolean term (same normalisation as for branch conditions)"""
+    cc, tr = deep_strip(term), truth
+    while cc[0] == 'un' and cc[1] == 'Not':
+        cc, tr = deep_strip(cc[2]), not tr
+    out = []
+    if cc[0] == 'bin' and cc[1] in NEG:
+        op = cc[1] if tr else NEG[cc[1]]
+        out.append(('cmp', op, deep_strip(cc[2]), deep_strip(cc[3])))
+    elif cc[0] == 'call' and canon(cc[1]).split("::")[-2:-1] in (["PartialOrd"], ["PartialEq"]) and \
+            canon(cc[1]).split("::")[-1] in _CMP_METHODS and len(cc[2]) == 2:
+        op = _CMP_METHODS[canon(cc[1]).split("::")[-1]]
+        op = op if tr else NEG[op]
+        out.append(('cmp', op, _unref(cc[2][0]), _unref(cc[2][1])))
+    else:
+        out.append(('bool', cc, tr))
+    for r in list(out):
+        out.extend(_empty_len_twin(r))
+        if r[0] == 'cmp' and r[2] != r[3]:
+            out.append(('cmp', SWAP[r[1]], r[3], r[2]))
+    return out
+
+
 def _empty_len_twin(rel):
     """`x.is_empty()` and `x.len() == 0` are the same test: emit the fact in the other spelling too"""
     out = []
@@ -1191,6 +1218,7 @@ def _facts_at(self, pos, _depth=0):
         if not cs:
             continue
         sel = []
+        maybe = {}
         unknown = False
         for dpos, d in cs:
             d = deep_strip(d)
@@ -1203,12 +1231,18 @@ def _facts_at(self, pos, _depth=0):
             elif d[0] == 'call' and canon(d[1]).endswith("FromResidual::from_residual"):
                 if (via_branch and v == 1) or (not via_branch and v == 1 and self._ty_is_result(t)):
                     sel.append(dpos)
+            elif d[0] == 'call':
+                # defined by a fallible call: it MAY be the tested variant; if so the call itself had that variant
+                sel.append(dpos)
+                maybe[dpos] = ('discr', d, v)
             else:
                 unknown = True
         if unknown or len(sel) != 1:
             continue
         seen.add(t)
         dpos = sel[0]
+        if dpos in maybe and maybe[dpos] not in out and not via_branch:
+            out.append(maybe[dpos])
         # "control came through this definition" means: as the LAST definition of the local — paths that run through another
         # (or again through this) definition of it are not the ones the fact speaks about
         roots = {s[1] for s in subterms(t) if isinstance(s, tuple) and s and s[0] == 'var' and self._is_phi(s[1])}
